@@ -69,6 +69,18 @@ def run_job(job, workdir):
     return r
 
 
+def run_lemmas(group, tier, workdir):
+    out = os.path.join(workdir, f'lemmas-{group}.json')
+    try:
+        p = subprocess.run([VENV_PY, '-m', 'engine.kernels', group, out, workdir], cwd=ROOT, env=_env(),
+                           capture_output=True, text=True, timeout=1200)
+        if os.path.exists(out):
+            return json.load(open(out))
+        return [{'name': group, 'status': 'error', 'detail': 'lemma process wrote nothing: ' + p.stderr[-500:]}]
+    except subprocess.TimeoutExpired:
+        return [{'name': group, 'status': 'inconclusive', 'detail': 'lemma process timed out'}]
+
+
 def replay_cases(cases, workdir, tag, profile=True):
     if not cases:
         return []
@@ -119,13 +131,22 @@ def check_property(prop, tier, spec):
         lemma_future = None
         with cf.ThreadPoolExecutor(max_workers=NPROC) as ex:
             if spec.get('lemmas'):
-                lemma_future = ex.submit(spec['lemmas'], tier, workdir)
+                lemma_future = ex.submit(run_lemmas, spec['lemmas'], tier, workdir)
             for r in ex.map(lambda j: run_job(j, workdir), jobs):
                 results.append(r)
         lemma_results = lemma_future.result() if lemma_future else []
 
         # ---- counterexamples: replay, classify ---------------------------
+        refuted = [r for r in results if r['verdict'] == 'refuted']
+        seen_labels, first, later = set(), [], []
+        for r in refuted:
+            (later if r['failure']['label'] in seen_labels else first).append(r)
+            seen_labels.add(r['failure']['label'])
+        to_replay = (first + later)[:8]     # distinct assertions first; the rest is counted, not printed
+        skipped_refuted = len(refuted) - len(to_replay)
         for r in results:
+            if r['verdict'] == 'refuted' and r not in to_replay:
+                continue
             if r['verdict'] == 'refuted':
                 f = r['failure']
                 case = {'property': prop, 'harness': r['spec']['harness'], 'shape': f['shape'],
@@ -296,6 +317,8 @@ def check_property(prop, tier, spec):
               f'refuted={ev["coverage"]["jobs_refuted"]} inconclusive={ev["coverage"]["jobs_inconclusive"]} '
               f'paths={paths} z3_queries={ev["coverage"]["z3_queries"]} solver_s={ev["coverage"]["solver_s"]} '
               f'lemmas={len(lem_ok)}/{len(lemma_results)} validated_samples={validated} wall={ev["wall_s"]}s')
+        if skipped_refuted:
+            print(f'  (+{skipped_refuted} further refuted jobs not replayed)')
         if violations:
             return 1
         if harness_errors:
